@@ -75,9 +75,15 @@ fn get_node_cover_range_impl(
         }
     }
     let node_range = node.range();
-    (node_range.start <= range.start
-        && node_range.end >= range.end
-        && (node.is::<Markup>() || node.is::<Expr>() || node.is::<Pattern>()))
-    .then(|| (node.span(), mode))
+    // Only the whole document is formatted as markup. The markup inside a content block, a strong or emph
+    // element or a list item depends on what encloses it (its edge blanks, the indentation of its
+    // continuation lines), so the enclosing expression is taken instead.
+    let is_candidate = if node.is::<Markup>() {
+        node.parent().is_none()
+    } else {
+        node.is::<Expr>() || node.is::<Pattern>()
+    };
+    (node_range.start <= range.start && node_range.end >= range.end && is_candidate)
+        .then(|| (node.span(), mode))
     // It returns span to avoid problems with borrowing.
 }
